@@ -84,6 +84,15 @@ CORPUS = [
     ("long-digits-w", H + G + OKRULE, ["-q", "-w" + "1" * 60, "p.gdl", "in.ttf", "out.ttf"], {}),
     ("g-missing-in-subst", H + "table(glyph) cA = unicode(0x61, 0x1234, 0x62); cB = glyphid(7..9); endtable;\ntable(sub) cA > cB; endtable;\n",
      ["-q", "-g", "p.gdl", "in.ttf", "out.ttf"], {}),
+    # (side observations of the round-seven sub-agents)
+    ("feature-label-600-chars", H + 'table(feature) f1 { id = "abcd"; name.1033 = string("' + "x" * 600 + '"); default = 0; settings { a {value = 0; name.1033 = string("A")} b {value = 1; name.1033 = string("' + "y" * 520 + '")} } } endtable;\n' + G + OKRULE, None, {}),
+    ("rename-font-with-high-bytes-in-mac-names", H + G + OKRULE, ["-q", "p.gdl", "in.ttf", "out.ttf", "Renamed Font"], {"names_extra": {2: "R\xe9gulier", 8: "Soci\xe9t\xe9", 3: "Soci\xe9t\xe9:Verif:1"}}),
+    ("gpath-with-gpoint-without-offsets", H + "table(glyph) cA = glyphid(3..6) {pt.gpoint = 3; pt.gpath = 1}; cB = glyphid(7..10) {q.gpoint = 2}; endtable;\ntable(pos) cA cB {attach {to = @1; at = pt; with = q}}; endtable;\n", None, {}),
+    ("negative-gpath-offsets", H + "table(glyph) cA = glyphid(3..6) {pt.gpoint = 3; pt.gpath = -100000000}; cB = glyphid(7..10) {q.gpoint = 2}; endtable;\ntable(pos) cA cB {attach {to = @1; at = pt; with = q}}; endtable;\n", ["-q", "-offsets", "p.gdl", "in.ttf", "out.ttf"], {}),
+    ("negative-gpoint-offsets", H + "table(glyph) cA = glyphid(3..6) {pt.gpoint = 3}; cB = glyphid(7..10) {q.gpoint = -100000000}; endtable;\ntable(pos) cA cB {attach {to = @1; at = pt; with = q}}; endtable;\n", ["-q", "-offsets", "p.gdl", "in.ttf", "out.ttf"], {}),
+    ("small-negative-gpath-gpoint-offsets", H + "table(glyph) cA = glyphid(3..6) {pt.gpoint = 3; pt.gpath = -5}; cB = glyphid(7..10) {q.gpoint = -2}; endtable;\ntable(pos) cA cB {attach {to = @1; at = pt; with = q}}; endtable;\n", ["-q", "-offsets", "p.gdl", "in.ttf", "out.ttf"], {}),
+    ("point-assigned-from-point-offsets", H + "table(glyph) cA = glyphid(3..6) {p1 = point(10m, 20m, 3m, 4m); p2 = p1}; cB = glyphid(7..10); endtable;\n" + OKRULE, ["-q", "-offsets", "p.gdl", "in.ttf", "out.ttf"], {}),
+    ("stretch-above-16-bits-at-level-1", H + "table(glyph) cA = glyphid(3..6) {justify.1.stretch = 70000m}; cB = glyphid(7..10); endtable;\n" + OKRULE, None, {}),
     ("family-name-200", H + G + OKRULE, None, {"family": "F" * 200}),
     ("family-name-1000", H + G + OKRULE, None, {"family": "F" * 1000}),
     ("codepoint-to-ffff", H + "table(glyph) cA = codepoint(65..65535); cB = glyphid(7..9); endtable;\ntable(sub) cA > cB; endtable;\n", None, {}),
@@ -349,6 +358,8 @@ def run(tier, seed, replay=None):
                 continue
         if opt.get("family"):
             font = ttf.simple_font(40, family=opt["family"])[0]
+        if opt.get("names_extra"):
+            font = ttf.simple_font(40, names=ttf.default_names("Verif", extra=opt["names_extra"]))[0]
         if opt.get("name_platforms"):
             # name records for several languages under one platform and encoding; optionally only the family name in the extra ones
             recs = ttf.default_names("Verif", platforms=tuple(opt["name_platforms"]))
